@@ -339,7 +339,17 @@ def h_busy(kind, n_children=1):
     m = MODS['message']
     junk = bytes(m.Message(spi_i=b'UNKNOWN!', spi_r=b'unknown!', major=2, minor=0, exchange_type=37, is_response=False, can_use_higher_version=False,
                            is_initiator=True, message_id=7, payloads=[], encrypted_payloads=[]).to_bytes())
+    est = n.a.ike_sas[0]
+    forged = bytearray(m.Message(spi_i=est.spi_i, spi_r=est.spi_r, major=2, minor=0, exchange_type=37, is_response=False, can_use_higher_version=False,
+                                 is_initiator=False, message_id=est.peer_msg_id, payloads=[], encrypted_payloads=[], crypto=est.peer_crypto).to_bytes())
+    forged[-1] ^= 0xFF          # right SPIs, wrong checksum
     ev = {'udp_junk': {'kind': 'udp', 'dst': world.IP1, 'src': '203.0.113.77', 'data': junk},
+          'udp_runt': {'kind': 'udp', 'dst': world.IP1, 'src': '203.0.113.77', 'data': b'\x00' * 11},
+          'udp_bad_checksum': {'kind': 'udp', 'dst': world.IP1, 'src': str(world.IP2), 'data': bytes(forged)},
+          'udp_unconfigured_init': {'kind': 'udp', 'dst': world.IP1, 'src': '203.0.113.77', 'data': bytes(n.b.ike_sas[0].ike_sa_init_req_data or junk) if False else
+                                    bytes(m.Message(spi_i=b'NEWPEER!', spi_r=b'\0' * 8, major=2, minor=0, exchange_type=34, is_response=False, can_use_higher_version=False,
+                                                    is_initiator=True, message_id=0, payloads=[], encrypted_payloads=[]).to_bytes())},
+          'xfrm_runt': {'kind': 'xfrm', 'data': b'\x01\x02\x03'},
           'xfrm_junk': {'kind': 'xfrm', 'data': world.expire_bytes(b'\xde\xad\xbe\xef', True)},
           'control': {'kind': 'control'},
           'idle': {'kind': 'tick'}}[kind]
@@ -366,7 +376,7 @@ def build_instances(tier):
     for kind in ('init', 'auth', 'child', 'rekey_child', 'rekey_ike'):
         inst.append(Instance(f'retransmission of a {kind} request beside a second IKE_SA of the same connection', h_shared, (kind,), native=nat(h_shared),
                              engine_kw={'max_ticks': 10 ** 7}, must_reach=[('identical', lambda o: o[0] == 'shared')]))
-    for kind in ('udp_junk', 'xfrm_junk', 'control', 'idle'):
+    for kind in ('udp_junk', 'udp_runt', 'udp_bad_checksum', 'udp_unconfigured_init', 'xfrm_runt', 'xfrm_junk', 'control', 'idle'):
         inst.append(Instance(f'peer crash under steady {kind} events', h_busy, (kind,), native=nat(h_busy), engine_kw={'max_ticks': 10 ** 7},
                              must_reach=[('torn down', lambda o: o[0] == 'busy')]))
     for k in (2, 3):
